@@ -209,6 +209,41 @@ PROPS = {
              "non-trivial; distinct = distinct hash of the operation sequence",
         assumptions=["1 microsecond tolerance for integer truncation order in the smoothing formulas"],
     ),
+    "C18": dict(
+        level="exploration",
+        level_text="Trace and state oracles over generated write-size / ACK-timing scripts against the scripted peer, both Nagle "
+                   "settings. Nagle on: every first transmission is compared with the segment size in force when its last byte was "
+                   "written; a shorter one with earlier data unacknowledged must be window-limited (run-sum rule on the wire, "
+                   "Segmented hook as cross-check); the ACK that drains the pipe must release held-back bytes in the same logical "
+                   "step. Nagle off: at the end of every poll (hooked snapshot) unsent accepted bytes need a stated reason (window / "
+                   "congestion window exhausted, probe outstanding, timeout or recovery mode, transport pending, closing).",
+        level_note=SIM_NOTE + "; the Nagle-off clause reads hooked state (ring, segments, flight, cwnd) at poll boundaries",
+        technique="runtime monitoring: scripted-peer stimulus + wire-trace oracle (Nagle on) and poll-boundary state oracle (Nagle off)",
+        budget=dict(quick=200, thorough=2400),
+        require=["c18_first_transmissions_checked", "c18_drain_releases_checked", "c18_nagle_off_polls_checked",
+                 "c18_nagle_off_polls_with_unsent", "c18_partial_with_unacked_seen"],
+        rule="a case is one generated (socket configuration incl. Nagle setting, write sizes 1 B..3 segments with pauses, ACK mode, "
+             "window) script; non-trivial = more than 2 first transmissions or polls judged; distinct = distinct normalised wire trace",
+        assumptions=["segments are pre-cut: one cut at the size in force when written is not 'smaller than it could have used' even if the proven size grows before it is sent"],
+    ),
+    "C19": dict(
+        level="exploration",
+        level_text="Boundary and state oracles over generated scripts in which writers outrun a slow, intermittently "
+                   "acknowledging, zero-window or silent scripted peer, with initial/maximum transmit buffers from 1 B to 1 MiB "
+                   "(incl. initial > maximum, non powers of two, writes larger than the buffer): accepted minus acknowledged bytes "
+                   "against max(initial, maximum) at every write return; ring length <= capacity <= limit at every poll boundary "
+                   "(hook); a pending write completes in the step in which a processed ACK freed space; with a peer silent for good "
+                   "the pending write ends with an error when the connection fails; the C01 wire content oracle across every "
+                   "growth step of the ring.",
+        level_note=SIM_NOTE,
+        technique="runtime monitoring: scripted-peer stimulus + boundary accounting oracle + hooked ring invariants",
+        budget=dict(quick=200, thorough=2400),
+        require=["c19_write_returns_checked", "c19_writer_wakeups_checked", "c19_snapshots_checked", "c19_growth_steps_seen",
+                 "c19_silent_peer_writes_checked", "c19_wire_content_checked"],
+        rule="a case is one generated (buffer settings, write sizes, peer ACK/window/silence policy) script; non-trivial = more than "
+             "one write return judged; distinct = distinct normalised wire trace",
+        assumptions=["real-thread interleavings of writer and connection task (ring swap on growth) are covered by the sanitizer passes, not by the single-threaded simulator"],
+    ),
 }
 
 
